@@ -8,8 +8,8 @@
                deps: pkg:name,pkg:name   inputs/tags: hex,hex   outputs: f:hex,d:hex,k:hex
                (f file, d dir, k docker)   nocmd: 0|1
      -> dup | graph=<ok | class+class>\tcons=<class,class | ->     (classes sorted)
-   clean <p> | join <a> <b> | esc <p> | within <path> <dir> | outpath <pkg> <id>
-   ws <root> <pkg> <rel>                                           -> hex string or 0/1 *)
+   clean <p> | join <a> <b> | esc <p> | within <path> <dir>
+   outpath <root> <pkg> <id> | ws <root> <pkg> <rel>               -> hex string or 0/1 *)
 open Model
 open Wire
 
@@ -53,7 +53,7 @@ let do_graph = function
     (match classes rc g with
      | [Dup] -> "dup"
      | _ ->
-       let gc = match show "+" (graph_classes g) with None -> "ok" | Some s -> s in
+       let gc = match show "+" (graph_classes rc g) with None -> "ok" | Some s -> s in
        let cc = match show "," (constraint_classes rc g) with None -> "-" | Some s -> s in
        let v = match validate rc g with Accept -> "accept" | Reject _ -> "reject" in
        Printf.sprintf "graph=%s\tcons=%s\t%s" gc cc v)
@@ -72,7 +72,7 @@ let () =
         | ["join"; a; c] -> out (join_path [fld a; fld c])
         | ["esc"; p] -> b (tries_to_escape (fld p))
         | ["within"; p; d] -> b (path_within (fld p) (fld d))
-        | ["outpath"; p; i] -> out (clean_output_path (fld p) (fld i))
+        | ["outpath"; r; p; i] -> out (clean_output_path (rootc r) (fld p) (fld i))
         | ["ws"; r; p; i] -> b (is_within_workspace (rootc r) (fld p) (fld i))
         | cmd :: _ -> "unknown-command " ^ cmd
         | [] -> "empty"
